@@ -274,7 +274,7 @@ M("c19-benign-rename-helper", "C19", "silent", (AU, "        # conditional expre
 EXT = "mako/ext/extract.py"
 BB = "mako/ext/babelplugin.py"
 M("c20-filters-not-scanned", "C20", "dispatch-exhaustive", (EXT, '                if node.escapes:\n                    # the filters, which may be calls with arguments\n                    code = "%s | %s" % (code, node.escapes)\n', ""))
-M("c20-namespace-skipped", "C20", "descent", (EXT, "            elif isinstance(node, parsetree.NamespaceTag):\n                # the defs written inside of a <%namespace>\n                yield from self.extract_nodes(node.nodes)\n                continue\n", ""))
+M("c20-namespace-skipped", "C20", "descent", (EXT, "            elif isinstance(node, parsetree.NamespaceTag):\n                # the defs written inside of a <%namespace>\n                in_translator_comments = False\n                yield from self.extract_nodes(node.nodes)\n                continue\n", ""))
 M("c20-pagetag-dropped", "C20", "dispatch-exhaustive", (EXT, "            elif isinstance(node, parsetree.PageTag):\n                code = node.body_decl.code\n", ""))
 M("c20-block-children-skipped", "C20", "descent", (EXT, "            elif isinstance(node, parsetree.BlockTag):\n                code = node.body_decl.code\n                child_nodes = node.nodes", "            elif isinstance(node, parsetree.BlockTag):\n                code = node.body_decl.code"))
 M("c20-lineno-uncompensated", "C20", "offset-algebra", (EXT, "                code, node.lineno - 1, translator_strings", "                code, node.lineno, translator_strings"))
